@@ -75,6 +75,8 @@ def run_C02(tier, rnd, st, res):
     cases = list(gen_triples(rnd, per=1 if tier == 'quick' else 6))
     cases += list(gen_random(rnd, 300 if tier == 'quick' else 10000))
     cases = sweep(cases, st, res, ['c02'], want_c06=False)
+    # every symbol of a Structured Append sequence carries its own function patterns, format and version information
+    sequence_block(tier, rnd, res, 'c02', auto_mask=True, versions=[1, 6, 7, 8, 10] if tier == 'quick' else None)
     res.exhaustive = True
     finish(res, cases, 'all 1312 (version, level, mask) triples with seeded content (exhaustive over triples) + random make() calls; '
            'non-trivial = a symbol was returned; distinct by (version, level, mask, segment shapes, stream end)')
@@ -117,12 +119,12 @@ def run_C01(tier, rnd, st, res):
            'capacity boundaries + two-byte contents; non-trivial = symbol returned and decoded; distinct by (version, level, mask, segments, end)')
 
 
-def sequence_block(tier, rnd, res, field, known_map=None):
+def sequence_block(tier, rnd, res, field, known_map=None, auto_mask=False, versions=None):
     """every symbol of a Structured Append sequence is a symbol: `make_sequence(content, symbol_count=n)` with chunk lengths at the
     capacity boundaries (n chunks of k characters where k fills version v exactly, plus r < n extra characters: the longer
     chunks need the next version), and with a requested version"""
     lines, info = [], []
-    for v in ([1, 2, 3, 5, 9, 10] if tier == 'quick' else range(1, 28)):
+    for v in (versions or ([1, 2, 3, 5, 9, 10] if tier == 'quick' else range(1, 28))):
         for e in (0, 1, 2, 3):
             for mode in (1, 2, 4):
                 k = max_chars(v, e, mode, 20)       # 20 bits Structured Append header
@@ -132,13 +134,15 @@ def sequence_block(tier, rnd, res, field, known_map=None):
                 for total in {n * k, n * k + rnd.randint(1, n - 1), n * k - rnd.randint(1, n - 1), n * k + n}:
                     content = content_for(rnd, mode, total)
                     kw = dict(symbol_count=n, error=LEVEL_NAME[e], boost_error=False, mask=rnd.randrange(8))
+                    if auto_mask:
+                        del kw['mask']
                     try:
                         seq = segno.make_sequence(content, **kw)
                     except ValueError:
                         continue
                     res.evaluations += 1
                     for q in seq:
-                        lines.append(f'sym id={len(lines)} m={matrix_str(q.matrix)} reqmask={kw["mask"]}')
+                        lines.append(f'sym id={len(lines)} m={matrix_str(q.matrix)} reqmask={kw.get("mask", "-")}')
                         info.append((content, kw))
     for o, (content, kw) in zip(run_lines_parallel(JUDGE, lines), info):
         kv = parse_kv(o)
@@ -175,6 +179,7 @@ def run_C13(tier, rnd, st, res):
                         cases.append(Case(content_for(rnd, mode, n), dict(kw, mode=MODE_NAME[mode]), 'other-modes'))
     cases += list(gen_minimal(rnd))
     cases += list(gen_merge_histories(rnd, 15 if tier == 'quick' else 150))
+    cases += list(gen_requested_version_gap(rnd, 40 if tier == 'quick' else 400))
     cases += list(gen_random(rnd, 300 if tier == 'quick' else 3000))
     cases = sweep(cases, st, res, ['c13'], want_c06=False, known_map=known_c13)
     sequence_block(tier, rnd, res, 'c13', known_c13)
@@ -348,7 +353,12 @@ def run_C06(tier, rnd, st, res):
         n = rnd.randint(4, 60)
         b = bytes(rnd.choice([0x5d, 0xba, 0x17, 0x45, 0xd1, 0x74, 0x2e, 0x8b, 0xa2, 0xe8, 0x00, 0xff]) for _ in range(n))
         cases.append(Case(b, dict(mode='byte', micro=False), 'n3-rich'))
+    # many symbols of one size in a row with automatic mask: exact ties of the minimal penalty occur for a few per cent of small
+    # symbols — the lowest-numbered pattern must win whatever was encoded before
+    for i in range(250 if tier == 'quick' else 4000):
+        cases.append(Case('ITEM-%05d' % (i * 7 % 100000), dict(micro=False, error='m', boost_error=False), 'tie-history'))
     cases = sweep(cases, st, res, ['c06'], want_c06=True)
+    sequence_block(tier, rnd, res, 'c06', auto_mask=True, versions=[1, 2, 3, 7] if tier == 'quick' else None)
     # requested masks through make_sequence (single-symbol shortcut and real sequences)
     seq_lines, seq_info = [], []
     for _ in range(40 if tier == 'quick' else 400):
@@ -426,6 +436,20 @@ def run_C07(tier, rnd, st, res):
                     cases.append(Case(content_for(rnd, m, n), kw, 'mode-level-micro'))
     cases += list(gen_encoding_histories(rnd))
     cases += list(gen_merge_histories(rnd, 15 if tier == 'quick' else 150))
+    # integers (also negative ones and zero) with and without a requested mode
+    for n in (-1234, -1, 0, 7, 12345678901234567890, -0):
+        for m in (None, 'numeric', 'alphanumeric', 'byte', 'kanji'):
+            cases.append(Case(n, dict(mode=m) if m else {}, 'integers'))
+    # Chinese / Japanese text with a requested mode and an explicit encoding (which codec produces the bytes that are judged?)
+    for t in ('汉字', '中文', '书读百遍其义自现', '恻惆', '漢字', '点茗', 'テスト'):
+        for m in ('hanzi', 'kanji', 'byte', None):
+            for enc in (None, 'utf-8', 'gb2312', 'gbk', 'big5', 'shift_jis', 'euc_jp', 'latin-1', 'utf-16-be'):
+                kw = {}
+                if m:
+                    kw['mode'] = m
+                if enc:
+                    kw['encoding'] = enc
+                cases.append(Case(t, kw, 'cjk-mode-encoding'))
     for t in TEXTS:
         for m in (None, 'byte', 'kanji', 'hanzi', 'alphanumeric'):
             cases.append(Case(t, dict(mode=m) if m else {}, 'texts'))
